@@ -61,6 +61,8 @@ func (P *Program) runConcrete(harness string, bounds map[string]int, seed int64)
 	return
 }
 
+var selfvalSeq int
+
 type selfvalCase struct {
 	Harness string
 	File    string
@@ -83,7 +85,8 @@ func selfValidate(P *Program, harness string, bounds map[string]int, n int, seed
 			rf.Vector = []ReplayVal{}
 		}
 		b, _ := json.MarshalIndent(rf, "", " ")
-		path := filepath.Join(dir, fmt.Sprintf("selfval-%s-%d.json", harness, len(out)))
+		selfvalSeq++
+		path := filepath.Join(dir, fmt.Sprintf("selfval-%s-%d.json", harness, selfvalSeq))
 		os.WriteFile(path, b, 0644)
 		out = append(out, selfvalCase{Harness: harness, File: path, Engine: r})
 	}
